@@ -197,6 +197,8 @@ def _case(seed: int) -> Dict[str, Any]:
     if seed % 4 == 3:
         kw["p_frac_kernel_dur"] = 0.6  # whole-number timestamps, fractional kernel durations: nothing is rounded, the ratio is over the exact lengths
     per_rank = gen.gen_trace_set(seed, n_ranks=1 + seed % 2, **kw)
+    if seed % 6 == 4:
+        per_rank = gen.wide_narrow_set(seed, **kw)  # rank 1's kernel names get trace-wide symbol ids beyond 127 while its own table is small
     if seed % 5 == 2:  # the first device stream is stream 0 (the default stream): a legitimate stream id, and a falsy value
         for evs in per_rank.values():
             for e in evs:
@@ -239,8 +241,9 @@ def _case(seed: int) -> Dict[str, Any]:
             fstream = {i: _file_stream(e) for i, e in gen.complete_events(per_rank[rk])}
             dev = df[[fstream.get(int(i), -1) != -1 for i in df["index"]]]
             comm, comp = [], []
-            for a, b, i in zip(dev["ts"], dev["dur"], dev["name"]):
-                nm = stab[i]
+            fname = {i: e["name"] for i, e in gen.complete_events(per_rank[rk])}  # kernel names are the file's, not what the frame's ids decode to
+            for a, b, i in zip(dev["ts"], dev["dur"], dev["index"]):
+                nm = fname[int(i)]
                 iv = (Fraction(float(a)), Fraction(float(a)) + Fraction(float(b)))  # exact (quarters are binary fractions)
                 if re.match(r"^nccl.*Kernel", nm):
                     comm.append(iv)
